@@ -371,6 +371,13 @@ func (c *FnCtx) emitLibAxioms() {
 			}()
 			st := &State{vars: map[types.Object]*Term{}, heap: map[string]*Term{}, ghost: map[string]*Term{}, alloc: intLit(0)}
 			savePre := c.pre
+			savePkg := c.pkg
+			if ax.Pkg != "" {
+				if p := c.eng.pkgs[ax.Pkg]; p != nil && p.Types != nil {
+					c.pkg = p.Types
+				}
+			}
+			defer func() { c.pkg = savePkg }()
 			t := c.specEval(st, ax.Expr, map[string]*Term{}, nil)
 			c.pre = savePre
 			for hn := range st.heap {
